@@ -68,4 +68,46 @@ Fixpoint eval_go (d : ini_doc) (section : option (list N)) (es : entries) : entr
       eval_go r section (es ++ [(full, eval_template es t)])
   end.
 Definition ini_eval (d : ini_doc) : entries := eval_go d None [].
+
+(* ---- well-formed documents: what may be written where so that the text means the document ----
+   white space inside a line is space, tab or CR; names and values are written in trimmed form; a name contains no
+   separator and does not start like a comment or a section header; literal text and section names contain no '$';
+   a reference names an entry defined above it (or an environment variable whose value contains no '$') with a name free
+   of '$', '{', '}' that does not start with '!' or '%'; a value holds at most [maxsub] references. *)
+Variable maxsub : N.
+Definition blank4 (c : N) : bool := (c =? 32) || (c =? 9) || (c =? 13) || (c =? 10).
+Definition wsok (b : list N) : bool := forallb (fun c => (c =? 32) || (c =? 9) || (c =? 13)) b.
+Definition linec (c : N) : bool := negb (c =? 10) && negb (c =? 0).
+Definition hdz (l : list N) : N := match l with c :: _ => c | [] => 0 end.
+Definition tfb (s : list N) : bool := match s with [] => true | c :: _ => negb (blank4 c) && negb (blank4 (last s 0)) end.
+Definition isnil (l : list N) : bool := match l with [] => true | _ => false end.
+Definition sep_ok (sep : N) : bool := negb (blank4 sep) && negb (sep =? 0) && negb (sep =? 35) && negb (sep =? 91).
+Definition name_ok (sep : N) (n : list N) : bool :=
+  forallb (fun c => linec c && negb (c =? sep)) n && tfb n && negb (hdz n =? 35) && negb (hdz n =? 91).
+Definition nodollar (s : list N) : bool := forallb (fun c => negb (c =? 36) && negb (c =? 0)) s.
+Definition lit_ok (s : list N) : bool := forallb linec s && nodollar s.
+Definition sect_ok (n : list N) : bool := lit_ok n && tfb n.
+Definition refc (c : N) : bool := linec c && negb (c =? 36) && negb (c =? 123) && negb (c =? 125).
+Definition piece_ok (es : entries) (p : ini_piece) : bool :=
+  match p with
+  | PLit s => lit_ok s
+  | PRef n => negb (isnil n) && forallb refc n && negb (hdz n =? 33) && negb (hdz n =? 37) && existsb (fun e => beq (fst e) n) es
+  | PEnv n => negb (isnil n) && forallb refc n && match env n with Some v => nodollar v | None => true end
+  end.
+Definition isref (p : ini_piece) : bool := match p with PLit _ => false | _ => true end.
+Definition tmpl_ok (es : entries) (t : ini_template) : bool :=
+  forallb (piece_ok es) t && tfb (render_template t) && (N.of_nat (length (filter isref t)) <=? maxsub).
+Definition lay_ok (l : lay) : bool := wsok (l_pre l) && wsok (l_mid1 l) && wsok (l_mid2 l) && wsok (l_post l).
+Fixpoint wf_go (sep : N) (d : ini_doc) (section : option (list N)) (es : entries) : bool :=
+  match d with
+  | [] => true
+  | (IComment text, l) :: r => lay_ok l && forallb linec text && wf_go sep r section es
+  | (IBlank, l) :: r => lay_ok l && wf_go sep r section es
+  | (ISection [], l) :: r => lay_ok l && wf_go sep r None es
+  | (ISection n, l) :: r => lay_ok l && sect_ok n && wf_go sep r (Some n) (es ++ [(n ++ [46], n)])
+  | (IEntry name t, l) :: r =>
+      let full := match section with Some s => s ++ 46 :: name | None => name end in
+      lay_ok l && name_ok sep name && tmpl_ok es t && wf_go sep r section (es ++ [(full, eval_template es t)])
+  end.
+Definition ini_wf (sep : N) (d : ini_doc) : bool := sep_ok sep && wf_go sep d None [].
 End Eval.
